@@ -7,12 +7,8 @@ import (
 	"sort"
 	"strings"
 
-	zed "github.com/brimdata/super"
 	"github.com/brimdata/super/compiler/ast/dag"
-	"github.com/brimdata/super/compiler/data"
-	"github.com/brimdata/super/compiler/kernel"
-	"github.com/brimdata/super/runtime"
-	"github.com/brimdata/super/zio/zsonio"
+	. "zvh/hx"
 )
 
 // ---------------------------------------------------------------- C16
@@ -120,31 +116,6 @@ func c16Leaves(lits []K) []*Pred {
 	}
 	out = append(out, &Pred{Kind: "other"})
 	return out
-}
-
-// evalDag evaluates a DAG expression on each input record with the real kernel.
-func evalDag(e dag.Expr, input string) (out []string, err error) {
-	err = safely(func() error {
-		zctx := zed.NewContext()
-		rctx := runtime.NewContext(context.Background(), zctx)
-		defer rctx.Cancel()
-		seq := dag.Seq{
-			&dag.DefaultScan{Kind: "DefaultScan"},
-			&dag.Yield{Kind: "Yield", Exprs: []dag.Expr{e}},
-			&dag.Output{Kind: "Output", Name: "main"},
-		}
-		b := kernel.NewBuilder(rctx, data.NewSource(nil, nil))
-		outs, err := b.Build(seq, zsonio.NewReader(zctx, strings.NewReader(input)))
-		if err != nil {
-			return err
-		}
-		for _, p := range outs {
-			out, err = drain(p)
-			return err
-		}
-		return nil
-	})
-	return out, err
 }
 
 func tvOf(s string) int {
@@ -318,7 +289,7 @@ func c16(o Opts) error {
 		res.Evaluations++
 		res.Count("pred_" + p.Kind)
 		// filter truth table on the real evaluator
-		fout, err := evalDag(filter, valInput.String())
+		fout, err := EvalDag(filter, valInput.String())
 		if err != nil {
 			return fmt.Errorf("eval %s: %w", src, err)
 		}
@@ -336,7 +307,7 @@ func c16(o Opts) error {
 		verdict := make([]bool, len(ranges))
 		if pruner != nil {
 			res.Count("prunable")
-			pout, err := evalDag(pruner, rangeInput.String())
+			pout, err := EvalDag(pruner, rangeInput.String())
 			if err != nil {
 				return fmt.Errorf("prune %s: %w", src, err)
 			}
@@ -393,10 +364,10 @@ func c16(o Opts) error {
 	// write the Coq correspondence file in shards
 	var sb strings.Builder
 	sb.WriteString("From ZV Require Import Base.Prelude Model.Pruner Model.PrunerCases.\n")
-	writeCoqList(&sb, "cmp_cases", "(key * key * Z)", coqCmp)
-	writeCoqList(&sb, "vins", "(key * N)", vinCoq)
-	writeCoqList(&sb, "ranges", "(key * key)", rangeCoq)
-	writeCoqList(&sb, "pred_cases", "(pred * list N * list bool)", predCases)
+	WriteCoqList(&sb, "cmp_cases", "(key * key * Z)", coqCmp)
+	WriteCoqList(&sb, "vins", "(key * N)", vinCoq)
+	WriteCoqList(&sb, "ranges", "(key * key)", rangeCoq)
+	WriteCoqList(&sb, "pred_cases", "(pred * list N * list bool)", predCases)
 	sb.WriteString("Definition M := Eval vm_compute in (cmp_mismatches cmp_cases, pred_mismatches vins ranges pred_cases).\nPrint M.\n")
 	if err := os.WriteFile(o.Out+"/cases.v", []byte(sb.String()), 0644); err != nil {
 		return err
@@ -425,26 +396,6 @@ func leafSig(p *Pred) string {
 	walk(p)
 	sort.Strings(sigs)
 	return strings.Join(sigs, ",")
-}
-
-func writeCoqList(sb *strings.Builder, name, ty string, items []string) {
-	// chunked to keep each definition small for the parser
-	const chunk = 2000
-	var parts []string
-	for i := 0; i < len(items); i += chunk {
-		j := i + chunk
-		if j > len(items) {
-			j = len(items)
-		}
-		pn := fmt.Sprintf("%s_%d", name, i/chunk)
-		fmt.Fprintf(sb, "Definition %s : list %s := [\n  %s].\n", pn, ty, strings.Join(items[i:j], ";\n  "))
-		parts = append(parts, pn)
-	}
-	if len(parts) == 0 {
-		fmt.Fprintf(sb, "Definition %s : list %s := [].\n", name, ty)
-		return
-	}
-	fmt.Fprintf(sb, "Definition %s : list %s := %s.\n", name, ty, strings.Join(parts, " ++ "))
 }
 
 // c16Lake: generated pools and filters; pruned lake execution vs. the same
@@ -494,7 +445,7 @@ func c16Lake(o Opts, rng *Rng, res *Result) error {
 			}
 			res.Evaluations++
 			res.Count("lake_queries")
-			g, w := sortedCopy(got), sortedCopy(want)
+			g, w := SortedCopy(got), SortedCopy(want)
 			if len(w) > 0 && len(w) < len(all) {
 				res.Distinctly("lake:" + src + fmt.Sprint(it))
 			}
@@ -510,7 +461,7 @@ func c16Lake(o Opts, rng *Rng, res *Result) error {
 		// delete-where with a prunable predicate, then compare remaining contents
 		p := c16RandPred(rng, 2)
 		src := p.Zed()
-		_, derr := env.API.DeleteWhere(context.Background(), pool, "main", src, msg())
+		_, derr := env.API.DeleteWhere(context.Background(), pool, "main", src, Msg())
 		if derr != nil && !strings.Contains(derr.Error(), "empty") && !strings.Contains(derr.Error(), "no") {
 			// errors such as "nothing to delete"-style are fine; anything else is reported below via contents
 			res.Count("delete_where_err")
@@ -523,13 +474,13 @@ func c16Lake(o Opts, rng *Rng, res *Result) error {
 		if err != nil {
 			return err
 		}
-		want := multisetMinus(all, wantDel)
+		want := MultisetMinus(all, wantDel)
 		if derr != nil {
-			want = canonAll(all)
+			want = CanonAll(all)
 		}
 		res.Evaluations++
 		res.Count("lake_delete_where")
-		g, w := sortedCopy(got), sortedCopy(want)
+		g, w := SortedCopy(got), SortedCopy(want)
 		if strings.Join(g, "\n") != strings.Join(w, "\n") {
 			res.Fail(Failure{
 				Kind: "oracle", Sig: "lake-delete-where-differs:" + leafSig(p),
@@ -541,38 +492,6 @@ func c16Lake(o Opts, rng *Rng, res *Result) error {
 		res.Sample(map[string]any{"lake_case": it, "desc": desc, "stride": stride, "thresh": thresh, "values": len(all), "delete_where": src})
 	}
 	return nil
-}
-
-// canonAll re-formats ZSON texts through the plain runtime so both sides print alike.
-func canonAll(vals []string) []string {
-	out, err := RunQuery("pass", strings.Join(vals, "\n"))
-	if err != nil {
-		panic(err)
-	}
-	return out
-}
-
-func multisetMinus(all, del []string) []string {
-	all = canonAll(all)
-	cnt := map[string]int{}
-	for _, d := range del {
-		cnt[d]++
-	}
-	var out []string
-	for _, a := range all {
-		if cnt[a] > 0 {
-			cnt[a]--
-			continue
-		}
-		out = append(out, a)
-	}
-	return out
-}
-
-func sortedCopy(x []string) []string {
-	y := append([]string{}, x...)
-	sort.Strings(y)
-	return y
 }
 
 func c16RandKey(rng *Rng) string {
@@ -622,4 +541,4 @@ func c16RandPred(rng *Rng, depth int) *Pred {
 	return &Pred{Kind: "or", A: c16RandPred(rng, depth-1), B: c16RandPred(rng, depth-1)}
 }
 
-func init() { commands["c16"] = c16 }
+func main() { Main("c16", c16) }
